@@ -62,3 +62,13 @@ package absnfs
 // the pool is shared) are synchronised by those other means, which a guarded_by declaration cannot express: they are
 // listed as exempt and trusted. Every other access - Stats, Resize, anything added later - needs resizeMu.
 //@ guarded [pool-queue] C29 : WorkerPool.resizeMu : taskQueue, ctx, cancel, maxWorkers except WorkerPool.Submit, WorkerPool.SubmitWait, WorkerPool.worker, WorkerPool.Stop, WorkerPool.Stop$1, WorkerPool.Start
+
+// closeAllConnections snapshots the table under connMutex, releases it, and only then closes and unregisters each
+// connection (unregisterConnection takes connMutex itself): the second loop runs with the mutex released.
+//@ func Server.closeAllConnections
+//@ prop C29
+//@ partial
+//@ requires connInv(s) && (s.handler != nil ==> curTuning(s.handler) != nil)
+//@ modifies everything, allghosts, locks, once
+//@ loop 1 invariant s != nil && held(s.connMutex) == -1 && mapsame(s.activeConns) && s.connCount == old(s.connCount) && s.activeConns == old(s.activeConns)
+//@ loop 2 invariant connInv(s) && held(s.connMutex) == 0 && s.activeConns == old(s.activeConns) && (s.handler != nil ==> curTuning(s.handler) != nil)
